@@ -10,8 +10,8 @@
    filter, every iteration order. *)
 From Coq Require Import ZArith List Bool Permutation Sorted.
 From Verif Require Import Annotate.Model Annotate.SortProofs Annotate.Plans Annotate.Determinism
-  Annotate.Date Annotate.GenOk C11.Spec C11.Proofs C11.Exact C11.TimeTravel C11.Generic C11.FindVisibleSpec C12.Proofs.
-From VerifGen Require Import GenAnnotate.
+  Annotate.Date Annotate.GenOk C11.Spec C11.Proofs C11.Exact C11.TimeTravel C11.Generic C11.FindVisibleSpec C11.Mixed C11.Any C11.SpecDomain C12.Proofs.
+From VerifGen Require Import GenAnnotate GenAnnotateConst.
 Import ListNotations.
 Open Scope Z_scope.
 
@@ -346,11 +346,95 @@ Proof.
     repeat split; try discriminate. right. reflexivity.
 Qed.
 
+(* 16. time_travel_any — NO regime hypothesis: versions with and without commit times may be
+       mixed in one history and the parents may be of any regime.  Same conclusion as theorem 13.
+       (Proof: the loop invariant of FindVisible that holds for every mixture — no version that is
+       stamped before the window, or visible and stamped no later than [at], is later than the
+       selected one — and the coverage of nextVersionIndex for visible versions.) *)
+Theorem C11_time_travel_any :
+  forall cis o ps hist entries sortf ps' results p par j r cl s,
+  hist_ok hist -> valid_order o ps entries -> sort_spec less sortf ->
+  compute_with cis o ps hist entries sortf = Ok (ps', results) ->
+  nth_error ps p = Some par -> p_visible par = true ->
+  nth_error (p_refs par) j = Some r -> filtered_out (o_filter o) r = false ->
+  hist (r_id r) = HFound cl -> cl <> [] ->
+  vidx_ok cl -> stamps_monotone cis cl = true -> versions_mono cl ->
+  (forall ck, In ck cl -> stamp_consistent cis ck = true) ->
+  0 <= o_threshold o ->
+  find_visible cis cl (p_changeset par) (pstamp cis par) (o_threshold o) = Some s ->
+  forall is_rel t par' us refs' pend,
+  before_bound cis o (nth_error ps (S p)) t ->
+  (forall ck, In ck cl -> (c_vidx s < c_vidx ck)%nat -> stamp cis ck <= t -> c_visible ck = true) ->
+  nth_error ps' p = Some par' -> nth_error results p = Some us ->
+  apply_updates_up_to is_rel t (p_refs par') us = ApplyOk refs' pend ->
+  exists e r', later (Some s) (current_at cis cl t) = Some e /\ nth_error refs' j = Some r' /\ ref_carries r' e.
+Proof. exact time_travel_any. Qed.
+Print Assumptions C11_time_travel_any.
+
+Theorem C11_find_visible_covers : forall cis cl cid at_ eps x,
+  0 <= eps -> vidx_ok cl -> mono cis cl ->
+  find_visible cis cl cid at_ eps = Some x ->
+  forall i c, nth_error cl i = Some c -> must_cover cis at_ eps c -> (i <= c_vidx x)%nat.
+Proof. exact find_visible_covers. Qed.
+Print Assumptions C11_find_visible_covers.
+
+(* 17. the domain of theorem 14 as ONE boolean predicate, and its necessity: with a deleted version
+       inside the window the closest-candidate statement is false (FindVisible keeps the previous
+       version although a same-changeset candidate lies in the window). *)
+Theorem C11_find_visible_spec_on_domain : forall cis cid at_ eps cl,
+  (0 <=? eps) && stamps_monotone cis cl && forallb (ts_child cis) cl && window_visibleb cis at_ eps cl = true ->
+  find_visible_spec cis cid at_ eps cl (find_visible cis cl cid at_ eps).
+Proof. exact find_visible_spec_on_domain. Qed.
+Print Assumptions C11_find_visible_spec_on_domain.
+
+Theorem C11_find_visible_spec_outside_domain_refuted :
+  (0 <=? d_eps) && stamps_monotone d_cis d_cl && forallb (ts_child d_cis) d_cl = true /\
+  window_visibleb d_cis (d_t 0) d_eps d_cl = false /\
+  option_map c_version (find_visible d_cis d_cl 7 (d_t 0) d_eps) = Some 1 /\
+  ~ find_visible_spec d_cis 7 (d_t 0) d_eps d_cl (find_visible d_cis d_cl 7 (d_t 0) d_eps).
+Proof. exact find_visible_spec_refuted_outside_domain. Qed.
+Print Assumptions C11_find_visible_spec_outside_domain_refuted.
+
+Example C11_domain_witness_inside :
+  (0 <=? o_threshold g_opts) && stamps_monotone g_cis g_cl && forallb (ts_child g_cis) g_cl
+  && window_visibleb g_cis (g_t 0) (o_threshold g_opts) g_cl = true.
+Proof. vm_compute. reflexivity. Qed.
+
+(* a MIXED history (C11/Any.v): node 100 has v1, v2 without and v3, v4 with commit times; the way's
+   first version has no commit time, its second has one.  Hypotheses of theorem 16 hold; the way
+   selects v2, its updates are [v3]; travelling to a time after v3 gives v3 = later(v2, current_at) *)
+Example C11_hyps_mixed :
+  vidx_ok x_cl /\ versions_mono x_cl /\ x_cl <> [] /\ stamps_monotone x_cis x_cl = true /\
+  (forall ck, In ck x_cl -> stamp_consistent x_cis ck = true) /\ 0 <= o_threshold x_opts /\ hist_ok x_hist /\
+  map (ts_child x_cis) x_cl = [true; true; false; false] /\
+  option_map c_version (find_visible x_cis x_cl 7 (x_t (-3600)) (o_threshold x_opts)) = Some 2.
+Proof.
+  split; [apply to_child_list_vidx_ok|]. split; [apply to_child_list_versions_mono|].
+  split; [vm_compute; discriminate|]. split; [vm_compute; reflexivity|].
+  split; [apply forallb_forall; vm_compute; reflexivity|].
+  split; [vm_compute; discriminate|]. split; [exact x_hist_ok|].
+  split; vm_compute; reflexivity.
+Qed.
+
+Example C11_instance_mixed :
+  exists ps' us us2,
+    compute_with x_cis x_opts x_parents x_hist x_entries (isort less) = Ok (ps', [us; us2]) /\
+    map (map r_version) (map p_refs ps') = [[2]; [3]] /\ map u_version us = [3] /\ map u_version us2 = [4] /\
+    (exists par' refs pend, nth_error ps' 0 = Some par' /\
+       apply_updates_up_to false (x_t 6000) (p_refs par') us = ApplyOk refs pend /\ map r_version refs = [3]).
+Proof.
+  eexists. eexists. eexists. split; [vm_compute; reflexivity|]. split; [vm_compute; reflexivity|].
+  split; [vm_compute; reflexivity|]. split; [vm_compute; reflexivity|].
+  eexists. eexists. eexists. split; [reflexivity|]. split; vm_compute; reflexivity.
+Qed.
+
 (* 15. tie by translation: the decision functions regenerated from /repo's Go source on every run
        (coq/gen/GenAnnotate.v, translator/cmd/annotate) ARE the hand model the theorems above are
        about: timeThreshold, timeThresholdParent, ChildList.FindVisible, ChildList.VersionBefore,
        nextVersionIndex (VersionIndex as Z), updateTimestamp, Child.Update (Index 0),
-       updatesSortIndex.Less, and the time.Date literal of osm.CommitInfoStart. *)
+       updatesSortIndex.Less, parentWay.SetChild and parentRelation.SetChild (the glue for way nodes
+       and for relation members of all three kinds), and the time.Date literal of
+       osm.CommitInfoStart. *)
 Theorem C11_generated_code_is_model :
   (forall a b, gen_less_index a b = less a b) /\
   (forall cis ts com, gen_update_timestamp cis ts com = update_timestamp cis ts com) /\
@@ -361,6 +445,7 @@ Theorem C11_generated_code_is_model :
   (forall cis cl end_, gen_version_before cis cl end_ = version_before cis cl end_) /\
   (forall cis current cl np o,
      gen_next_version_index cis current cl np o = res_map Z.of_nat (next_version_index cis current cl np o)) /\
+  (forall c r, gen_way_set_child c r = set_ref c r /\ gen_relation_set_child c r = set_ref c r) /\
   unix_nanos gen_commit_info_start_args = Some 1347442203000000000.
 Proof. exact generated_code_is_model. Qed.
 Print Assumptions C11_generated_code_is_model.
